@@ -60,6 +60,22 @@ func genC05(t *rapid.T) c05Case {
 		c.R = gen.DrawHRender(t, format, len(c.Units))
 		return c
 	}
+	if rapid.IntRange(0, 9).Draw(t, "longInput") == 0 {
+		// several thousand bytes of input: line buffers roll over while records are being assembled (half of these cases
+		// are fixedlength2, whose reader keeps references into its read buffer while an envelope is incomplete)
+		if rapid.Bool().Draw(t, "longFixedLength2") {
+			format = "fixedlength2"
+		}
+		c.H = gen.DrawHierarchy(t, format, gen.HierOpts{Tags: c05Tags})
+		c.Units = gen.DrawLongUnits(t, c.H, c05Tags)
+		c.R = gen.DrawHRender(t, format, 12)
+		c.R.CycleBlank = true
+		if c.R.Blank == nil && rapid.Bool().Draw(t, "longBlanks") {
+			// empty lines between the lines of multi-line records matter most when buffers roll over
+			c.R.Blank = rapid.SliceOfN(rapid.IntRange(0, 1), 5, 13).Draw(t, "longBlankPattern")
+		}
+		return c
+	}
 	c.H = gen.DrawHierarchy(t, format, gen.HierOpts{Tags: c05Tags})
 	c.Units = gen.DrawUnits(t, c.H, c05Tags)
 	c.R = gen.DrawHRender(t, format, len(c.Units))
@@ -230,7 +246,8 @@ func c05Tokens(fd map[string]interface{}, input []byte) ([]string, string) {
 	}
 	r := edi.NewNonValidatingReader(bytes.NewReader(input), &decl)
 	var out []string
-	for i := 0; i < 64; i++ {
+	limit := 64 + len(input) // (at most one segment per byte)
+	for i := 0; i < limit; i++ {
 		seg, err := r.Read()
 		if err == io.EOF {
 			return out, ""
@@ -247,7 +264,7 @@ func c05Tokens(fd map[string]interface{}, input []byte) ([]string, string) {
 		}
 		out = append(out, strings.Join(parts, "*"))
 	}
-	return out, "no EOF after 64 segments"
+	return out, "no EOF after as many segments as the input has bytes"
 }
 
 // c05One judges one (hierarchy, units, rendering) combination. known is non-empty when the only
@@ -417,6 +434,9 @@ func checkC05(c c05Case) obs.Result {
 	}
 	if len(c.Units) == 0 {
 		cl = append(cl, "empty-input")
+	}
+	if len(c.Units) > 100 {
+		cl = append(cl, "long-input")
 	}
 	if c.R.NoFinalTerm {
 		cl = append(cl, "no-final-terminator")
